@@ -135,6 +135,22 @@ def run_shard(sh):
         url = url_of(rule, w.peer_ip)
         short = rule.split('<peer_ip>/')[1]
         body = BODIES.get(short)
+        if method == 'GET':
+            # OPTIONS is answered by Flask itself; it must neither have an effect nor reveal anything, with or without credentials
+            for cname, hdr in list(creds(w).items())[:3] + [('valid', w.auth())]:
+                before = full_fp(w)
+                resp = w.client.open(url, method='OPTIONS', headers=hdr)
+                w.settle()
+                after = full_fp(w)
+                res['counters']['requests'] += 1
+                res['evaluations'] += 1
+                res['distinct'].append('%s|OPTIONS|%s|%s' % (short, cname, st))
+                feats = ['rule:' + short, 'method:OPTIONS', 'cred:' + cname]
+                rep = dict(state=st, rule=rule, method='OPTIONS', cred=cname)
+                if after != before:
+                    bad('unauthenticated-effect', feats, 'OPTIONS %s with credentials "%s" in %s changed the world' % (url, cname, st), rep)
+                if cname != 'valid' and resp.status_code != 401 and resp.get_data():
+                    bad('unauthenticated-disclosure', feats, 'OPTIONS %s with credentials "%s" answered %s with a body: %r' % (url, cname, resp.status_code, resp.get_data()[:80]), rep)
         for cname, hdr in creds(w).items():
             before = full_fp(w)
             code, jb = w.rest(method, url, headers=hdr, json_body=body if method in ('POST', 'PUT', 'PATCH') else None)
